@@ -2,12 +2,21 @@
 
 S1  TLC: specs/C20/AppLifecycle.tla, all call sequences x tool behaviours (the reachable
     state space closes at depth 5), safety invariants + action properties, and liveness
-    under weak fairness of the environment step.
-S2  every transition of the state graph is replayed against ClustalOmegaApp, MuscleApp,
-    Muscle5App, MafftApp (real child processes running fixtures/bin/fake_msa, whose exit is
-    triggered by the harness) and against a minimal Application subclass (SimApp) that
-    exercises application.py's own start/join/cancel logic.
-S3  random call sequences (<= 16 calls) are recorded and validated by TLC (Trace.tla).
+    under weak fairness of the environment steps.  The behaviour of the external program is
+    a record of independent dimensions (launch, row order, output completeness, ending: exit
+    code or death by signal, output volume below / above the OS pipe size).
+    specs/C20/MCResults.tla: the data half (rows mapped back to the input order by the
+    NUMBER a header denotes) for 2..101 sequences x emission orders x length profiles.
+S2  every (state, call) pair of the state graph (thorough: every transition) is replayed
+    against ClustalOmegaApp, MuscleApp, Muscle5App, MafftApp (real child processes running
+    fixtures/bin/fake_msa, whose progress is triggered by the harness) and against a minimal
+    Application subclass (SimApp) that exercises application.py's own start/join/cancel
+    logic.  Every case of MCResults is run through a real wrapper and the alignment rows,
+    the order, the tree leaves and the sequence objects are compared with TLC's values.
+S3  random call sequences (<= 16 calls, any combination of the tool dimensions) are recorded
+    and validated by TLC (Trace.tla); random successful runs (up to 40 sequences, arbitrary
+    permutations and lengths) are recorded together with the program's own copy of what it
+    emitted and validated by TLC (ResultsTrace.tla).
 """
 
 from __future__ import annotations
@@ -16,6 +25,7 @@ import json
 import os
 import random
 import shutil
+import signal
 import tempfile
 import time
 
@@ -60,9 +70,9 @@ def _sim_class():
             self._param = None
 
         def run(self):
-            if self._tool == "missing":
+            if self._tool["launch"] == "missing":
                 raise OSError("cannot launch the job")
-            if self._tool == "badopt":
+            if self._tool["launch"] == "badopt":
                 raise TypeError("option cannot be passed to the job")
             self._backend = "running"
 
@@ -73,9 +83,11 @@ def _sim_class():
             return 0.0002
 
         def evaluate(self):
-            if self._tool in ("exit3", "garbage"):
-                raise RuntimeError("job failed / unparsable output")
-            self._results = {"reordered": "reversed", "rotated": "rotated"}.get(self._tool, "identity")
+            if self._tool["ending"] != "exit0":
+                raise RuntimeError("job failed / was killed")
+            if self._tool["output"] != "complete":
+                raise RuntimeError("unparsable / incomplete output")
+            self._results = self._tool["order"]
 
         def clean_up(self):
             self._files = False
@@ -100,7 +112,7 @@ def _sim_class():
 
         @requires_state(AppState.FINISHED | AppState.JOINED)
         def get_exit_code(self):
-            return 3 if self._tool == "exit3" else 0
+            return {"exit0": 0, "exit3": 3}.get(self._tool["ending"], -9)
 
         @requires_state(AppState.FINISHED | AppState.JOINED)
         def get_stdout(self):
@@ -117,8 +129,45 @@ def _sim_class():
     return SimApp
 
 
+DEFAULT_TOOL = {"launch": "ok", "order": "identity", "output": "complete", "ending": "exit0",
+                "vol": "small"}
+TOOL_DIMS = {"order": ["identity", "reversed", "rotated"],
+             "output": ["complete", "truncated", "garbage", "none"],
+             "ending": ["exit0", "exit3", "SIGKILL", "SIGTERM", "SIGSEGV"],
+             "vol": ["small", "bigout", "bigerr", "bigboth"]}
+HANG_AFTER = 12.0   # seconds after which a call that should return is recorded as "Hang"
+LONG_TIMEOUT = 10.0  # the timeout of "join_T"
+
+
+class _Hang(BaseException):
+    pass
+
+
+def tool_env(tool):
+    """The environment of fixtures/bin/fake_msa for one behaviour record of the specification."""
+    env = {"FAKE_MSA_BEHAVIOUR": {"identity": "ok", "reversed": "reordered", "rotated": "rotated"}[tool["order"]],
+           "FAKE_MSA_OUTPUT": "complete", "FAKE_MSA_VOLUME": tool["vol"],
+           "FAKE_MSA_ENDING": {"exit0": "exit0", "exit3": "exit3", "SIGKILL": "KILL", "SIGTERM": "TERM",
+                               "SIGSEGV": "SEGV"}[tool["ending"]]}
+    if tool["output"] == "garbage":
+        env["FAKE_MSA_BEHAVIOUR"] = "garbage"
+    elif tool["output"] == "none" and tool["ending"] == "exit3":
+        env["FAKE_MSA_BEHAVIOUR"] = "exit3"   # the classic failure: a message on STDERR, exit code 3
+    else:
+        env["FAKE_MSA_OUTPUT"] = tool["output"]
+    return env
+
+
+def make_seq_text(k, length, st):
+    """Text of input k: distinct inputs get distinct texts (rotation of the alphabet)."""
+    letters = "ACGT" if st != "prot" else "MKVLAGSTEDRNQHPFWYIC"
+    reps = (length + k) // len(letters) + 2
+    return (letters * reps)[k % len(letters):][:length]
+
+
 class Harness:
-    def __init__(self, kind, tool, seqs=("ACGT", "AC", "ACG"), protein=False, custom=False):
+    def __init__(self, kind, tool, seqs=("ACGT", "AC", "ACG"), protein=False, custom=False,
+                 order=None, pad=None, copy=False, hanging=True):
         from biotite.sequence import NucleotideSequence, ProteinSequence
 
         self.kind, self.tool = kind, tool
@@ -127,10 +176,23 @@ class Harness:
         self.exec_dir = os.path.join(self.dir, "exec")
         os.mkdir(self.exec_dir)
         self.trigger = os.path.join(self.dir, "trigger")
+        self.marker = os.path.join(self.dir, "marker")
+        self.copy = os.path.join(self.dir, "copy.fa") if copy else None
         self.bin = os.path.join(self.dir, "fake_msa")
         os.symlink(FAKE, self.bin)
+        for k in [k for k in os.environ if k.startswith("FAKE_MSA_")]:
+            del os.environ[k]
         os.environ["FAKE_MSA_TRIGGER"] = self.trigger
-        os.environ["FAKE_MSA_BEHAVIOUR"] = tool if tool not in ("missing", "badopt") else "ok"
+        os.environ["FAKE_MSA_MARKER"] = self.marker
+        os.environ.update(tool_env(tool))
+        if order is not None:
+            os.environ["FAKE_MSA_ORDER"] = " ".join(str(int(i)) for i in order)
+        if pad is not None:
+            os.environ["FAKE_MSA_PAD"] = pad
+        if self.copy:
+            os.environ["FAKE_MSA_COPY"] = self.copy
+        if not hanging:
+            open(self.trigger, "w").close()   # the program does its work without waiting
         os.environ["FAKE_MSA_VERSION"] = {"muscle3": "MUSCLE v3.8.31 by Robert C. Edgar",
                                           "muscle5": "muscle 5.1.linux64 []"}.get(kind, "fake 1.0")
         self.cleanups = 0
@@ -158,9 +220,9 @@ class Harness:
                    "mafft": MafftApp}[kind]
             self.app = cls(self.inputs, self.bin, matrix) if matrix is not None else cls(self.inputs, self.bin)
             self.app.set_exec_dir(self.exec_dir)
-        if tool == "missing" and kind != "sim":
+        if tool["launch"] == "missing" and kind != "sim":
             os.unlink(self.bin)  # the binary disappears before the launch
-        if tool == "badopt" and kind != "sim":
+        if tool["launch"] == "badopt" and kind != "sim":
             self.app.add_additional_options(["--threads", 2])  # a non-string option: Popen refuses
         # the caller moves on to another directory after creating the wrapper: "home" is the
         # directory the calling process is in when it makes its calls, not the one it was
@@ -209,13 +271,17 @@ class Harness:
                 st = f.read().rsplit(")", 1)[1].split()[0]
         except OSError:
             return "exited"
-        return "exited" if st in ("Z", "X") else "running"
+        if st in ("Z", "X"):
+            return "exited"
+        # the fake program announces (marker file) that it starts writing more than its pipes
+        # hold: from then on it is alive but cannot end before somebody reads
+        return "blocked" if os.path.exists(self.marker) else "running"
 
     def observe(self, expect_proc=None):
-        if expect_proc == "exited" and self.proc_state() == "running":
+        if expect_proc == "exited" and self.proc_state() != "exited":
             # kill / exit are asynchronous: wait generously for an *expected* exit
             t0 = time.time()
-            while self.proc_state() == "running" and time.time() - t0 < 3.0:
+            while self.proc_state() != "exited" and time.time() - t0 < 5.0:
                 time.sleep(0.002)
         if self.kind == "sim":
             files = "present" if self.app._files else "absent"
@@ -230,24 +296,56 @@ class Harness:
         from biotite.application.application import AppStateError, TimeoutError as AppTimeout
 
         a = self.app
+        if c == "proc_exits":
+            if self.kind == "sim":
+                a._backend = "exited"
+            else:
+                open(self.trigger, "w").close()
+                t0 = time.time()
+                while self.proc_state() != "exited":
+                    if time.time() - t0 > 20:
+                        raise RuntimeError("fake tool did not exit after the trigger")
+                    time.sleep(0.002)
+            return "ok", ""
+        if c == "proc_writes":
+            if self.kind == "sim":
+                raise RuntimeError("the simulated job has no pipes")
+            open(self.trigger, "w").close()
+            t0 = time.time()
+            while self.proc_state() != "blocked":
+                if time.time() - t0 > 20:
+                    raise RuntimeError("fake tool did not start writing after the trigger")
+                time.sleep(0.002)
+            return "ok", ""
+
+        # a call that does not come back is an outcome ("Hang"), never a hanging check
+        def on_alarm(_sig, _frm):
+            raise _Hang()
+
+        old = signal.signal(signal.SIGALRM, on_alarm)
+        signal.setitimer(signal.ITIMER_REAL, HANG_AFTER)
+        try:
+            return self._do(c)
+        except _Hang:
+            return "Hang", ""
+        finally:
+            signal.setitimer(signal.ITIMER_REAL, 0)
+            signal.signal(signal.SIGALRM, old)
+
+    def _do(self, c):
+        from biotite.application.application import AppStateError, TimeoutError as AppTimeout
+
+        a = self.app
         try:
             out = ""
-            if c == "proc_exits":
-                if self.kind == "sim":
-                    a._backend = "exited"
-                else:
-                    open(self.trigger, "w").close()
-                    t0 = time.time()
-                    while self.proc_state() == "running":
-                        if time.time() - t0 > 10:
-                            raise RuntimeError("fake tool did not exit after the trigger")
-                        time.sleep(0.002)
-            elif c == "start":
+            if c == "start":
                 a.start()
             elif c == "join":
                 a.join()
             elif c == "join_t":
                 a.join(timeout=0.0 if self.kind == "sim" else 0.03)
+            elif c == "join_T":
+                a.join(timeout=LONG_TIMEOUT)
             elif c == "cancel":
                 a.cancel()
             elif c == "state":
@@ -261,14 +359,15 @@ class Harness:
             elif c == "get_tree":
                 out = self._check_tree(a.get_guide_tree())
             elif c == "get_exit_code":
-                out = str(a.get_exit_code())
+                code = a.get_exit_code()
+                out = str(code) if code >= 0 else "signal"   # Popen: -N = killed by signal N
             elif c == "get_stdout":
                 out = "text" if isinstance(a.get_stdout(), str) else "not-text"
             elif c == "get_command":
                 out = "text" if isinstance(a.get_command(), str) else "not-text"
             elif c == "get_process":
                 p = a.get_process()
-                out = p if self.kind == "sim" else self.proc_state()
+                out = p if self.kind == "sim" else (self.proc_state() if p is self.app._process else "not-the-process")
             else:
                 raise ValueError(c)
             return "ok", out
@@ -361,6 +460,61 @@ class Harness:
             return False
         return True
 
+    # ---- results as values of specs/C20/MsaResults.tla -----------------------------------
+    def results(self):
+        """(outcomes, values) of the three result getters, projected: one run-length gapped row
+        per input, the order, the leaves of the tree ([] = the wrapper has no tree getter)."""
+        import numpy as np
+
+        a = self.app
+        val = {"rows": [], "order": [], "leaves": [], "sequences": "none"}
+        ocs = {}
+        for c in ("get_alignment", "get_order", "get_tree"):
+            if not self.has(c):
+                continue
+            try:
+                if c == "get_alignment":
+                    aln = a.get_alignment()
+                    trace = np.asarray(aln.trace)
+                    rows = []
+                    for k in range(trace.shape[1]):
+                        col = trace[:, k]
+                        gap = col == -1
+                        # symbols must be the input's own positions 0,1,2,... in this order
+                        good = np.array_equal(col[~gap], np.arange(int((~gap).sum())))
+                        rows.append(_rle(gap, "s" if good else "x"))
+                    val["rows"] = rows
+                    same = len(aln.sequences) == len(self.inputs) and all(
+                        (s is i) or (type(s) is type(i) and s == i) for s, i in zip(aln.sequences, self.inputs))
+                    val["sequences"] = "the_inputs" if same else "other:" + ",".join(
+                        sorted({type(x).__name__ for x in aln.sequences}))
+                elif c == "get_order":
+                    val["order"] = [int(x) for x in a.get_alignment_order()]
+                else:
+                    tree = a.get_guide_tree()
+                    val["leaves"] = [sorted(int(leaf.index) for leaf in tree.leaves)] if tree is not None else [["none"]]
+                ocs[c] = "ok"
+            except Exception as e:  # noqa: BLE001
+                ocs[c] = f"Rejected:{type(e).__name__}"
+        return ocs, val
+
+    def emitted(self):
+        """What the external program says it emitted (its own copy): [{hdr: digits, row: rle}]."""
+        import numpy as np
+
+        out = []
+        try:
+            with open(self.copy) as f:
+                lines = [ln.rstrip("\n") for ln in f if ln.strip()]
+        except OSError:
+            return None
+        for i in range(0, len(lines) - 1, 2):
+            if not lines[i].startswith(">") or not lines[i][1:].isdigit():
+                return None
+            gap = np.frombuffer(lines[i + 1].encode(), dtype=np.uint8) == ord("-")
+            out.append({"hdr": [int(ch) for ch in lines[i][1:]], "row": _rle(gap, "s")})
+        return out
+
     def close(self):
         try:
             p = getattr(self.app, "_process", None)
@@ -378,6 +532,19 @@ class Harness:
             except OSError:
                 pass
             shutil.rmtree(self.dir, ignore_errors=True)
+
+
+def _rle(gap, sym):
+    """Run-length form of a gapped row: gap = boolean array (True = gap)."""
+    import numpy as np
+
+    n = len(gap)
+    if n == 0:
+        return []
+    cuts = np.flatnonzero(gap[1:] != gap[:-1]) + 1
+    starts = np.concatenate(([0], cuts))
+    ends = np.concatenate((cuts, [n]))
+    return [{"k": "g" if gap[b] else sym, "c": int(e - b)} for b, e in zip(starts, ends)]
 
 
 FIELDS = ("app", "proc", "files", "cleanups", "cwd")
@@ -447,9 +614,77 @@ def exec_path(item):
     return {"mismatch": mism, "steps": len(done)}
 
 
+def _small(rows, idx):
+    return {str(i): rows[i] for i in idx if i < len(rows)}
+
+
+def run_results_case(kind, cs, tool=None, hang_ok=False):
+    """The plain history start, join() on a program that emits the rows in the order cs["p"];
+    returns (outcomes, observation after join, emitted copy, results)."""
+    c = cs["case"]
+    st = c["st"] if kind in ("muscle3", "mafft") or c["st"] != "custom" else "nuc"
+    seqs = [make_seq_text(k, n, st) for k, n in enumerate(cs["L"])]
+    h = Harness(kind, tool or DEFAULT_TOOL, seqs=seqs, protein=(st == "prot"), custom=(st == "custom"),
+                order=cs["p"], pad=c["pad"], copy=True, hanging=False)
+    try:
+        oc1, _ = h.do("start")
+        obs1 = h.observe()
+        oc2, _ = h.do("join")
+        obs2 = h.observe(expect_proc="exited")
+        emitted = h.emitted() if oc2 == "ok" else None
+        ocs, val = h.results() if oc2 == "ok" else ({}, {"rows": [], "order": [], "leaves": [], "sequences": "none"})
+        return {"start": oc1, "join": oc2}, (obs1, obs2), emitted, ocs, val, st
+    finally:
+        h.close()
+
+
+def exec_results(item):
+    """S2 of the data half: cases generated by TLC (MCResults) through a real wrapper."""
+    from harness.tlabind.pool import progress
+
+    mism = []
+    n_eval = 0
+    for kind, cs in item["cases"]:
+        progress({"kind": kind, "case": cs["case"]})
+        oc, (obs1, obs2), emitted, ocs, val, st = run_results_case(kind, cs)
+        s1, s3 = cs["life"]
+        n_eval += 2 + len(ocs)
+        bad = []
+        if oc["start"] != s1["oc"] or obs1["app"] not in (s1["app"], "FINISHED"):
+            bad.append("start")
+        bad += ["join:" + b for b in compare(s3, oc["join"], "", obs2)]
+        exp = cs["res"]
+        if not bad:
+            if emitted != cs["out"]:
+                raise RuntimeError(f"fake_msa did not emit what the specification's environment emits: {cs['case']}")
+            bad += [f"{c}:{o}" for c, o in ocs.items() if o != "ok"]
+            if "get_alignment" in ocs:
+                if val["rows"] != exp["rows"]:
+                    bad.append("rows")
+                if val["sequences"] != exp["sequences"]:
+                    bad.append("sequences")
+            if "get_order" in ocs and val["order"] != exp["order"]:
+                bad.append("order")
+            if "get_tree" in ocs and val["leaves"] != [exp["leaves"]]:
+                bad.append("leaves")
+        if bad:
+            diff = [i for i in range(len(exp["rows"])) if i >= len(val["rows"]) or val["rows"][i] != exp["rows"][i]][:3]
+            mism.append({"kind": "results", "app_kind": kind, "case": cs["case"], "bad": bad,
+                         "p": cs["p"], "L": cs["L"],
+                         "expected": {"join": s3["oc"], "app": s3["app"], "rows": _small(exp["rows"], diff),
+                                      "order": exp["order"][:24], "sequences": exp["sequences"]},
+                         "observed": {"start": oc["start"], "join": oc["join"], "app": obs2["app"],
+                                      "proc": obs2["proc"], "files": obs2["files"], "cleanups": obs2["cleanups"],
+                                      "rows": _small(val["rows"], diff), "order": val["order"][:24],
+                                      "leaves": [x[:24] for x in val["leaves"]], "sequences": val["sequences"],
+                                      "getters": ocs}})
+    return {"mismatch": mism, "steps": n_eval, "cases": len(item["cases"])}
+
+
 # --------------------------------------------------------------------------- S3 child
-CALLS = ["start", "join", "join_t", "cancel", "state", "setter", "get_alignment", "get_order",
-         "get_tree", "get_exit_code", "get_stdout", "get_command", "get_process", "proc_exits"]
+CALLS = ["start", "join", "join_t", "join_T", "cancel", "state", "setter", "get_alignment", "get_order",
+         "get_tree", "get_exit_code", "get_stdout", "get_command", "get_process", "proc_exits",
+         "proc_writes"]
 
 
 def gen_trace(item):
@@ -459,26 +694,33 @@ def gen_trace(item):
     kind = item["kind"]
     tool = item["tool"]
     seqsets = [("ACGT", "AC", "ACG"), ("A", "A", "C"), ("ACGTTGCA", "ACGT", "TTT", "G"),
-               ("MKV", "MK", "MKVLA")]
+               ("MKV", "MK", "MKVLA"), tuple(make_seq_text(k, 1 + (k * 5) % 7, "nuc") for k in range(12))]
     k = rng.randrange(len(seqsets))
     h = Harness(kind, tool, seqs=seqsets[k], protein=(k == 3), custom=(rng.random() < 0.35))
     events = []
+    big = tool["vol"] != "small"
     try:
-        weights = {"start": 3, "join": 3, "join_t": 2, "cancel": 2, "state": 3, "proc_exits": 3}
+        weights = {"start": 3, "join": 3, "join_t": 2, "join_T": 2, "cancel": 2, "state": 3, "proc_exits": 3,
+                   "proc_writes": 3}
         for _ in range(item["length"]):
             c = rng.choices(CALLS, weights=[weights.get(x, 1) for x in CALLS])[0]
             if not h.has(c):
                 continue
             proc = h.proc_state()
             app = h.app._state.name
-            if c == "proc_exits" and proc != "running":
+            if c == "proc_exits" and not (proc == "running" and not big):
                 continue
-            if c == "join" and app in ("RUNNING", "FINISHED") and proc == "running":
-                continue  # would block forever
+            if c == "proc_writes" and not (proc == "running" and big):
+                continue
+            waits = app in ("RUNNING", "FINISHED")
+            if c in ("join", "join_T") and waits and proc == "running":
+                continue  # would block forever / for the whole long timeout
+            if c == "join_t" and waits and proc == "blocked":
+                continue  # a race the model does not decide
             progress({"kind": kind, "tool": tool, "c": c, "done": [e["c"] for e in events]})
             oc, out = h.do(c)
             # an exit is expected after cancel / timeout / evaluated join
-            expect_exit = c in ("cancel", "join_t", "join") and oc != "AppStateError"
+            expect_exit = c in ("cancel", "join_t", "join", "join_T") and oc not in ("AppStateError", "Hang")
             obs = h.observe(expect_proc="exited" if expect_exit else None)
             ev = {"c": c, "tool": tool, "oc": oc, "out": out if oc == "ok" else ""}
             ev.update(obs)
@@ -490,29 +732,71 @@ def gen_trace(item):
     return {"events": events, "kind": kind}
 
 
+def gen_results(item):
+    """S3 of the data half: a random successful run (any number of sequences, any permutation,
+    any lengths, any output volume) recorded with the program's own copy of what it emitted."""
+    from harness.tlabind.pool import progress
+
+    rng = random.Random(item["seed"])
+    kind = item["kind"]
+    events = []
+    for _ in range(item["runs"]):
+        n = rng.choice([rng.randint(2, 9), rng.randint(10, 14), rng.randint(15, 40), rng.randint(95, 125)])
+        if rng.random() < 0.06:
+            n = rng.randint(2, 5)
+            lens = [rng.randint(12000, 24000) for _ in range(n)]   # around / above the pipe size
+        else:
+            lens = [rng.randint(1, 12) for _ in range(n)]
+        perm = list(range(n))
+        rng.shuffle(perm)
+        st = rng.choice(["nuc", "prot", "custom"])
+        tool = dict(DEFAULT_TOOL, vol=rng.choice(["small", "small", "bigout", "bigerr", "bigboth"]),
+                    ending=rng.choice(["exit0"] * 5 + ["exit3", "SIGKILL", "SIGSEGV"]))
+        cs = {"case": {"st": st, "pad": rng.choice(["end", "alternate"])}, "L": lens, "p": perm}
+        progress({"kind": kind, "n": n, "tool": tool})
+        oc, _obs, emitted, ocs, val, st = run_results_case(kind, cs, tool=tool)
+        bad_getter = [c for c, o in ocs.items() if o != "ok"]
+        events.append({"tool": tool, "join": oc["join"] if not bad_getter else "ok-but-" + bad_getter[0],
+                       "n": n, "lens": lens, "out": emitted or [], "rows": val["rows"], "order": val["order"],
+                       "leaves": val["leaves"], "sequences": val["sequences"], "st": st,
+                       "pad": cs["case"]["pad"], "perm": perm})
+    return {"events": events, "kind": kind}
+
+
 # --------------------------------------------------------------------------- classification
 def classify(mm):
     return None
 
 
 # --------------------------------------------------------------------------- orchestration
+def _core_key(st):
+    return repr([st[k] for k in ("app", "proc", "files", "cleanups", "cwd", "res", "failed")]
+                + sorted(st["tool"].items()))
+
+
 def run(ctx):
     from harness.tlabind import dot, tlc
     from harness.tlabind.core import Vacuity
-    from harness.tlabind.helpers import binding_selftest, run_pool, tlc_validate
+    from harness.tlabind.helpers import binding_selftest, dump_states, run_pool, tlc_validate
     from harness.tlabind.tlaval import to_py
 
     ctx.assumptions += [
-        "the external program is fixtures/bin/fake_msa; its exit is triggered by the harness (no sleeps decide a verdict)",
-        "join() without timeout is only called when the program has exited (it would block otherwise)",
+        "the external program is fixtures/bin/fake_msa; its progress is triggered by the harness (no sleeps decide a verdict)",
+        "join() without timeout and join(timeout=10 s) are only called when the program has exited or only waits for a reader of its pipes (they would block otherwise)",
+        "join(timeout=0.03 s) is not called on a program that waits for a reader (a race the model does not decide)",
+        "a call that has not returned after 12 s although the program is not hanging is recorded as outcome 'Hang'",
+        "a program that announced (marker file) more output than a pipe holds counts as 'blocked' while it is alive",
         "after a failed launch only the clean-up obligations are specified, not the wrapper state",
         "a killed child that is a zombie of the calling process counts as gone (not running)",
-        "WebApp / BLAST (network) are covered only through Application's shared state logic (SimApp)",
+        "WebApp / BLAST (network) are covered only through Application's shared state logic (SimApp; small-volume behaviours only)",
+        "Dom_Complete: result values are compared for runs whose program emitted every input exactly once",
     ]
     d = tlc.scratch_dir("c20")
     dotf = os.path.join(d, "g.dot")
     res = ctx.tlc("AppLifecycle", "MC.cfg", stage="S1", dump_dot=dotf, workers=1, coverage=False)
-    ctx.tlc("AppLifecycle", "MC_live.cfg", stage="S1-liveness", workers=4, count=False)
+    ctx.tlc("AppLifecycle", "MC_all.cfg", stage="S1-all-tools", workers=8)
+    ctx.tlc("AppLifecycle", "MC_live.cfg" if ctx.quick else "MC_live_all.cfg", stage="S1-liveness", workers=4,
+            count=False)
     ctx.exhaustive = True
     g = dot.load(dotf)
     calls_seen = {}
@@ -534,6 +818,12 @@ def run(ctx):
     ended = sum(1 for s in states if s["app"] in ("JOINED", "CANCELLED"))
     if ended == 0:
         raise Vacuity("no ended run in the model")
+    if not any(s["proc"] == "blocked" for s in states):
+        raise Vacuity("no program blocked on its output in the model")
+    for dim, vals in TOOL_DIMS.items():
+        seen = {s["tool"][dim] for s in states}
+        if seen != set(vals):
+            raise Vacuity(f"tool dimension {dim}: {seen} in the graph, {vals} in the driver")
     ctx.cov["states_per_outcome"] = ocs
     gfile = os.path.join(d, "graph.json")
     succ = {}
@@ -545,35 +835,110 @@ def run(ctx):
     with open(gfile, "w") as f:
         json.dump({"states": states, "succ": succ}, f)
     paths, covered = dot.covering_paths(g, max_len=10, rng=ctx.rng)
+    # (state, call) pairs of the model: the state without the outcome of the previous call
+    ckey = {nid: _core_key(states[k]) for nid, k in ids.items()}
+    pkeys = []
+    for root, steps in paths:
+        cur, ks = root, set()
+        for lab, dst in steps:
+            ks.add((ckey[cur], dot.parse_label(lab)[1][0]))
+            cur = dst
+        pkeys.append(ks)
+    all_pairs = set().union(*pkeys)
     items = []
+    per_kind_pairs = {}
     for kind in KINDS:
-        sel = paths
-        if ctx.quick and kind != "sim":
-            sel = ctx.rng.sample(paths, min(len(paths), 450))
-        for root, steps in sel:
+        idx = list(range(len(paths)))
+        if kind == "sim":
+            # the simulated remote job has no pipes and no signals of its own
+            idx = [i for i in idx if states[ids[paths[i][0]]]["tool"]["vol"] == "small"]
+        elif ctx.quick:
+            # every (state, call) pair on every real wrapper class: greedy cover, long paths first
+            ctx.rng.shuffle(idx)
+            idx.sort(key=lambda i: -len(pkeys[i]))
+            got, sel = set(), []
+            for i in idx:
+                if pkeys[i] - got:
+                    sel.append(i)
+                    got |= pkeys[i]
+            if got != all_pairs:
+                raise Vacuity(f"S2 {kind}: {len(got)} of {len(all_pairs)} (state, call) pairs selected")
+            rest = [i for i in idx if i not in set(sel)]
+            sel += ctx.rng.sample(rest, min(len(rest), 60))
+            idx = sel
+        per_kind_pairs[kind] = len(set().union(*[pkeys[i] for i in idx]))
+        for i in idx:
+            root, steps = paths[i]
             items.append({"kind": kind, "init": ids[root],
                           "steps": [[dot.parse_label(lab)[1][0], ids[dst]] for lab, dst in steps]})
     tmp = os.path.join(d, "tmp")
     os.mkdir(tmp)
-    ctx.log(f"S2: {len(paths)} covering paths ({covered}/{len(g.edges)} transitions) -> {len(items)} executions")
+    ctx.log(f"S2: {len(paths)} covering paths ({covered}/{len(g.edges)} transitions, {len(all_pairs)} (state, call) pairs)"
+            f" -> {len(items)} executions")
     results = run_pool(ctx, "harness.drivers.c20:exec_path", items, stage="S2",
-                       env={"C20_GRAPH": gfile, "C20_TMP": tmp}, item_timeout=25)
+                       env={"C20_GRAPH": gfile, "C20_TMP": tmp}, item_timeout=90)
     ctx.traces_validated += len(items)
     ctx.evaluations += sum(r.get("steps", 0) for r in results if r)
     ctx.nontrivial += sum(1 for it in items if len(it["steps"]) >= 3)
     ctx.cov["rule"] = ("behaviour = call sequence on one wrapper instance; non-trivial = at least 3 calls "
-                       "(S2) or reaches RUNNING (S3)")
+                       "(S2) or reaches RUNNING (S3); data half: a successful run of >= 3 sequences whose "
+                       "program does not emit the rows in input order")
     ctx.cov["s2_paths_per_kind"] = {k: sum(1 for it in items if it["kind"] == k) for k in KINDS}
+    ctx.cov["s2_state_call_pairs"] = len(all_pairs)
+    ctx.cov["s2_state_call_pairs_per_kind"] = per_kind_pairs
     ctx.cov["s2_transitions_covered"] = covered
     for it in items[:2]:
         ctx.sample({"kind": it["kind"], "tool": states[it["init"]]["tool"], "calls": [c for c, _ in it["steps"]]})
+    # ---- S1 + S2 of the data half -------------------------------------------------------
+    real = [k for k in KINDS if k != "sim"]
+    _r, cases = dump_states(ctx, "MCResults", "MCResults.cfg" if ctx.quick else "MCResults_thorough.cfg",
+                            stage="S1-results", workers=8)
+    cases.sort(key=lambda cs: json.dumps(cs["case"], sort_keys=True))
+    ns = sorted({cs["case"]["n"] for cs in cases})
+    if not (min(ns) <= 3 and any(10 < n < 100 for n in ns) and max(ns) > 100):
+        raise Vacuity(f"numbers of sequences {ns} do not cross the numeral boundaries")
+    if not any(sum(cs["L"]) > 70000 for cs in cases):
+        raise Vacuity("no case whose alignment exceeds the OS pipe size")
+    pairs = []
+    for j, cs in enumerate(cases):
+        ks = ["muscle3", "mafft"] if cs["case"]["st"] == "custom" else real
+        if ctx.quick and cs["case"]["prof"] != "long":
+            ks = [ks[(j + ctx.seed) % len(ks)]]   # quick: one wrapper class per case, all of them for the big ones
+        pairs += [[k, cs] for k in ks]
+    # heavy cases first, ~10 cases per item
+    pairs.sort(key=lambda kc: -sum(kc[1]["L"]))
+    nitems = max(16, len(pairs) // 10)
+    ritems = [{"cases": pairs[i::nitems]} for i in range(nitems)]
+    rres = run_pool(ctx, "harness.drivers.c20:exec_results", ritems, stage="S2-results",
+                    env={"C20_TMP": tmp}, item_timeout=300)
+    ctx.traces_validated += len(pairs)
+    ctx.evaluations += sum(r.get("steps", 0) for r in rres if r)
+    ctx.nontrivial += sum(1 for _k, cs in pairs if cs["case"]["n"] >= 3 and cs["case"]["em"] != "identity")
+    ctx.cov["results_cases"] = len(cases)
+    ctx.cov["results_executions"] = len(pairs)
+    ctx.cov["results_sequence_counts"] = ns
+    ctx.cov["results_per_kind"] = {k: sum(1 for kk, _ in pairs if kk == k) for k in real}
+    ctx.sample({"results_case": cases[0]["case"], "p": cases[0]["p"], "order": cases[0]["res"]["order"]})
     # ---- S3 ----------------------------------------------------------------------------
     ntr = 150 if ctx.quick else 4000
-    tools = ["ok", "reordered", "rotated", "exit3", "garbage", "missing", "badopt"]
-    titems = [{"seed": ctx.rng.randrange(1 << 30), "kind": KINDS[k % len(KINDS)],
-               "tool": tools[(k // len(KINDS)) % len(tools)], "length": 16} for k in range(ntr)]
+    titems = []
+    for k in range(ntr):
+        kind = KINDS[k % len(KINDS)]
+        r = ctx.rng.random()
+        if r < 0.12:
+            tool = dict(DEFAULT_TOOL, launch=ctx.rng.choice(["missing", "badopt"]))
+        else:
+            tool = dict(DEFAULT_TOOL)
+            for dim, vals in TOOL_DIMS.items():
+                # half of the draws keep the default of a dimension: most runs are nearly healthy
+                tool[dim] = ctx.rng.choice(vals) if ctx.rng.random() < 0.5 else vals[0]
+            if tool["output"] != "complete":
+                tool["order"] = "identity"
+            if kind == "sim":
+                tool["vol"] = "small"
+        titems.append({"seed": ctx.rng.randrange(1 << 30), "kind": kind, "tool": tool, "length": 16})
     tres = run_pool(ctx, "harness.drivers.c20:gen_trace", titems, stage="S3",
-                    env={"C20_TMP": tmp}, item_timeout=40)
+                    env={"C20_TMP": tmp}, item_timeout=120)
     traces, kinds = [], []
     for it, r in zip(titems, tres):
         if r and r.get("events"):
@@ -595,19 +960,95 @@ def run(ctx):
     ctx.evaluations += sum(len(t) for t in traces)
     ctx.nontrivial += sum(1 for t in traces if any(e["app"] == "RUNNING" for e in t))
     ctx.cov["s3_traces"] = len(traces)
+    ctx.cov["s3_tools"] = len({json.dumps(it["tool"], sort_keys=True) for it in titems})
     ctx.sample({"s3_trace": traces[0][:3]} if traces else {})
 
     def corrupt(tr):
         for e in tr:
-            if e["oc"] == "ok" and e["c"] in ("start", "cancel", "join", "join_t", "state"):
+            if e["oc"] == "ok" and e["c"] in ("start", "cancel", "join", "join_t", "join_T", "state"):
                 e["app"] = "JOINED" if e["app"] != "JOINED" else "RUNNING"
                 return True
         return False
 
     binding_selftest(ctx, traces, corrupt)
+    # ---- S3 of the data half -----------------------------------------------------------
+    nrun = 120 if ctx.quick else 3000
+    per = 4
+    gitems = [{"seed": ctx.rng.randrange(1 << 30), "kind": real[k % len(real)], "runs": per}
+              for k in range(nrun // per)]
+    gres = run_pool(ctx, "harness.drivers.c20:gen_results", gitems, stage="S3-results",
+                    env={"C20_TMP": tmp}, item_timeout=300)
+    rtraces, rkinds = [], []
+    for it, r in zip(gitems, gres):
+        for e in (r or {}).get("events", ()):
+            rtraces.append([e])
+            rkinds.append(it["kind"])
+    keep = ("tool", "join", "n", "lens", "out", "rows", "order", "leaves", "sequences")
+    rms = tlc_validate(ctx, rtraces, module="ResultsTrace", cfg="ResultsTrace.cfg", stage="S3-results", keep=keep)
+    for m in rms:
+        _tag, tid, _l, flags, expd = m
+        e = rtraces[tid - 1][0]
+        if expd["oc"] == "NOTDOMAIN":
+            raise RuntimeError(f"S3-results: the program's copy is not a complete alignment: {e['tool']} n={e['n']} out={e['out'][:3]}")
+        names = ["rows", "order", "leaves", "sequences", "faithful"]
+        bad = [n for n, ok in zip(names, flags) if not ok] if expd["oc"] == e["join"] else ["join"]
+        diff = [i for i, r in enumerate(expd.get("rows", [])) if i >= len(e["rows"]) or e["rows"][i] != r][:3]
+        ctx.mismatch({"stage": "S3", "kind": "results_event", "app_kind": rkinds[tid - 1], "tool": e["tool"],
+                      "bad": bad, "n": e["n"], "lens": e["lens"], "st": e["st"], "pad": e["pad"],
+                      "emitted_order": [int("".join(map(str, o["hdr"]))) for o in e["out"]] or e["perm"],
+                      "expected": {"join": expd["oc"], "rows": _small(expd.get("rows", []), diff),
+                                   "order": expd.get("order", [])[:24]},
+                      "observed": {"join": e["join"], "rows": _small(e["rows"], diff), "order": e["order"][:24],
+                                   "leaves": [x[:24] for x in e["leaves"]], "sequences": e["sequences"]}})
+    ctx.traces_validated += len(rtraces)
+    ctx.evaluations += 4 * len(rtraces)
+    ctx.nontrivial += sum(1 for t in rtraces if t[0]["join"] == "ok" and t[0]["n"] >= 3
+                          and t[0]["order"] != sorted(t[0]["order"]))
+    ctx.cov["s3_result_runs"] = len(rtraces)
+    ctx.cov["s3_result_runs_over_10_sequences"] = sum(1 for t in rtraces if t[0]["n"] > 10)
+    ctx.cov["s3_result_runs_joined"] = sum(1 for t in rtraces if t[0]["join"] == "ok")
+    if ctx.cov["s3_result_runs_joined"] == 0 or ctx.cov["s3_result_runs_over_10_sequences"] == 0:
+        raise Vacuity("S3-results: no successful run / no run with more than 10 sequences recorded")
+
+    def corrupt_rows(tr):
+        e = tr[0]
+        if e["join"] == "ok" and e["n"] >= 2 and e["rows"][0] != e["rows"][1]:
+            e["rows"][0], e["rows"][1] = e["rows"][1], e["rows"][0]
+            return True
+        if e["join"] == "ok":
+            e["order"] = list(reversed(e["order"]))
+            return e["order"] != list(reversed(e["order"]))
+        return False
+
+    binding_selftest(ctx, [[{k: e[k] for k in keep}] for (e,) in rtraces], corrupt_rows,
+                     module="ResultsTrace", cfg="ResultsTrace.cfg")
 
 
 def replay(record):
+    if record.get("kind") in ("results", "results_event"):
+        # the stored expectation (computed by TLC in the run that found it) against a fresh run
+        if record["kind"] == "results":
+            cs = {"case": record["case"], "L": record["L"], "p": record["p"]}
+            tool = None
+        else:
+            cs = {"case": {"st": record["st"], "pad": record["pad"]}, "L": record["lens"],
+                  "p": record["emitted_order"]}
+            tool = record["tool"]
+        oc, (_o1, obs2), _em, ocs, val, _st = run_results_case(record["app_kind"], cs, tool=tool)
+        exp = record["expected"]
+        bad = []
+        if oc["join"] != exp["join"]:
+            bad.append("join")
+        bad += [c for c, o in ocs.items() if o != "ok"]
+        for i, r in exp.get("rows", {}).items():
+            if int(i) >= len(val["rows"]) or val["rows"][int(i)] != r:
+                bad.append(f"row {i}")
+        if oc["join"] == "ok" and "order" in exp and val["order"][:24] != exp["order"]:
+            bad.append("order")
+        return {"observed": {"join": oc["join"], "app": obs2["app"], "getters": ocs,
+                             "rows": _small(val["rows"], [int(i) for i in exp.get("rows", {})]),
+                             "order": val["order"][:24]},
+                "expected": exp, "mismatch": bool(bad), "bad": bad}
     h = Harness(record["app_kind"], record["tool"])
     try:
         last = None
